@@ -125,10 +125,12 @@ package server
 //@   requires len(content) < 2147483646
 //@   ensures [C08:fold_well_formed] forall k int :: {result[k]} 0 <= k && k < len(result) ==> result[k].StartLine < result[k].EndLine
 //@   ensures [C08:folds_ordered] forall k int :: {result[k]} 0 <= k && k + 1 < len(result) ==> result[k].EndLine <= result[k + 1].StartLine
+//@   ensures [C08:fold_inside] forall k int :: {result[k]} 0 <= k && k < len(result) ==> result[k].EndLine < NL(content)
 //@   loop 1 invariant journal != nil && 0 - 1 <= rangeindex && (len(ranges) == 0 || fresh(ranges))
 //@   loop 1 invariant [C08:fold_well_formed] forall k int :: {ranges[k]} 0 <= k && k < len(ranges) ==> ranges[k].StartLine < ranges[k].EndLine
 //@   loop 1 invariant [C08:fold_of_a_transaction] forall k int :: {ranges[k]} 0 <= k && k < len(ranges) ==> (exists i int :: 0 <= i && i <= rangeindex && i < len(journal.Transactions) && ranges[k].StartLine == journal.Transactions[i].Range.Start.Line - 1 && ranges[k].EndLine == FoldEndOf(journal.Transactions[i]))
 //@   loop 1 invariant [C08:folds_ordered] forall k int :: {ranges[k]} 0 <= k && k + 1 < len(ranges) ==> ranges[k].EndLine <= ranges[k + 1].StartLine
+//@   loop 1 invariant [C08:fold_inside] forall k int :: {ranges[k]} 0 <= k && k < len(ranges) ==> ranges[k].EndLine < NL(content)
 //@   loop 1 invariant [C08:before_later_transactions] forall k int, j int :: {ranges[k]; journal.Transactions[j]} 0 <= k && k < len(ranges) && rangeindex < j && j < len(journal.Transactions) ==> ranges[k].EndLine <= journal.Transactions[j].Range.Start.Line - 1
 //@   loop 1 invariant [C08:folds_disjoint] LinesApart(journal) ==> (forall k int :: {ranges[k]} 0 <= k && k + 1 < len(ranges) ==> ranges[k].EndLine < ranges[k + 1].StartLine)
 //@   loop 1 invariant [C08:strictly_before_later_transactions] LinesApart(journal) ==> (forall k int, j int :: {ranges[k]; journal.Transactions[j]} 0 <= k && k < len(ranges) && rangeindex < j && j < len(journal.Transactions) ==> ranges[k].EndLine < journal.Transactions[j].Range.Start.Line - 1)
@@ -193,6 +195,7 @@ package server
 //@   props C08
 //@   requires s != nil && params != nil && DocSmall(s, params.TextDocument.URI)
 //@   ensures [C08:every_fold_well_formed] forall k int :: {result0[k]} 0 <= k && k < len(result0) ==> result0[k].StartLine < result0[k].EndLine
+//@   ensures [C08:every_fold_inside] hasDoc(s, params.TextDocument.URI) ==> forall k int :: {result0[k]} 0 <= k && k < len(result0) ==> result0[k].EndLine < NL(docOf(s, params.TextDocument.URI))
 
 //@ func positionInRange
 //@   props C08
